@@ -169,6 +169,7 @@ type CallSitesDecl struct {
 }
 
 type ContractDB struct {
+	LibKeeps map[string]bool // library struct types whose fields uncontracted library calls do not modify
 	FrameSets map[string]*FrameSet
 	SharedInv      map[string]*SharedInv
 	Enums          []*EnumDecl
@@ -196,7 +197,7 @@ type ContractDB struct {
 
 var clauseRe = regexp.MustCompile(`^(requires|ensures|invariant|assert)(\?)?(\[[^\]]*\])?(!)?\s*(.*)$`)
 
-var topKeywords = map[string]bool{"frameset": true, "shared": true, "funcalias": true, "libframe": true, "enumerates": true, "callsites": true, "zeroglobal": true, "constglobal": true, "writes": true, "covers": true, "func": true, "ext": true, "iface": true, "spec": true, "ghost": true, "axiom": true, "sealed": true, "lemma": true, "pure": true, "class": true, "trusted": true}
+var topKeywords = map[string]bool{"libkeeps": true, "frameset": true, "shared": true, "funcalias": true, "libframe": true, "enumerates": true, "callsites": true, "zeroglobal": true, "constglobal": true, "writes": true, "covers": true, "func": true, "ext": true, "iface": true, "spec": true, "ghost": true, "axiom": true, "sealed": true, "lemma": true, "pure": true, "class": true, "trusted": true}
 var subKeywords = map[string]bool{"ghostset": true, "property": true, "flags": true, "requires": true, "ensures": true, "modifies": true, "loop": true, "let": true, "params": true}
 
 func firstWord(s string) string {
@@ -566,6 +567,14 @@ func (db *ContractDB) parseFile(path, pkg string) error {
 			db.FuncAlias[v] = rf[0]
 			for _, w := range rf[1:] {
 				db.FuncAliasProps[v] = append(db.FuncAliasProps[v], strings.TrimPrefix(w, "@"))
+			}
+		case "libkeeps":
+			cur = nil
+			if db.LibKeeps == nil {
+				db.LibKeeps = map[string]bool{}
+			}
+			for _, f := range strings.Fields(rest) {
+				db.LibKeeps[f] = true
 			}
 		case "libframe":
 			cur = nil
